@@ -19,6 +19,7 @@ for patch in $(ls $root/[A-Z]*/[0-9]*/patch.diff $root/[A-Z]*-[0-9]*/patch.diff 
   for p in $props; do echo $p; done | xargs -P 6 -I{} sh -c "${GMCHECK:-/verif/bin/gmcheck} -property {} -repo $scratch/repo -verif $scratch/verif -nofixtures > $scratch/{}.out 2>&1"
   for p in $props; do
     if grep -q "^gmcheck: load:" $scratch/$p.out; then echo "$name $p LOAD-FAIL $(grep '^gmcheck: load:' $scratch/$p.out | head -1 | cut -c1-200)"; continue; fi
+    if ! grep -q "^gmcheck $p tier=" $scratch/$p.out; then echo "$name $p CRASHED $(grep -m1 -E '^(fatal error|panic|gmcheck:)' $scratch/$p.out | cut -c1-200)"; mkdir -p /tmp/refout; cp $scratch/$p.out /tmp/refout/$name.$p.out; continue; fi
     if grep -q "^VIOLATION" $scratch/$p.out; then
       echo "$name $p FALSE-ALARM"
       grep -B6 '^VIOLATION' $scratch/$p.out | grep -vE '^VIOLATION|^gmcheck' | cut -c1-260 | sed 's/^/    /' | head -40
